@@ -671,6 +671,14 @@ def prog_jobs(tier, seed, props, module):
     for m_ in ("lb", "lh", "lw", "lbu", "lhu", "sb", "sh", "sw"):
         for ci, cfg in enumerate(DCFG[:2]):
             out.append(dict(common, label="prog1-%s-%s" % (m_, "".join(map(str, cfg))), args={"mnems": [m_], "cfg": list(cfg), "props": sorted(props)}, cost=8, validate_every=2))
+    # a store of every width onto a block made resident by the preceding access
+    for first in ("lw", "sw"):
+        for st_ in ("sb", "sh", "sw"):
+            for ci, cfg in enumerate(DCFG[:2]):
+                lab = "prog-%s,%s-%s" % (first, st_, "".join(map(str, cfg)))
+                if any(j["label"] == lab for j in out):
+                    continue
+                out.append(dict(common, label=lab, args={"mnems": [first, st_], "cfg": list(cfg), "props": sorted(props)}, cost=20, validate_every=3))
     for sk in (["sw", "sw", "lb"],) if tier == "quick" else (["sw", "lw", "lw"], ["sb", "lw", "beq"], ["lw", "sw", "jal"], ["sw", "sw", "lb"]):
         for cfg in DCFG[:2] if tier == "quick" else DCFG:
             out.append(dict(common, label="prog-%s-%s" % (",".join(sk), "".join(map(str, cfg))), args={"mnems": sk, "cfg": list(cfg), "props": sorted(props)}, cost=60, validate_every=5, optional=True))
